@@ -160,3 +160,129 @@ def replay_stale_load(inputs, obl):
         return dict(confirmed=False, detail=f"disk {disk!r}, cache {cached!r}, successes {succ}: consistent")
     finally:
         shutil.rmtree(d, ignore_errors=True)
+
+
+def _dfcache():
+    from klongpy.db.df_cache import PandasDataFrameCache
+    d = tempfile.mkdtemp(prefix='c18_replay_df_')
+    c = PandasDataFrameCache(max_memory=10 ** 6, root_path=d)
+    return c, d
+
+
+def replay_append_lock(inputs, obl):
+    """the per-file append lock of the table cache on the real code, two directed schedules:
+    (a) two appends to one table that start while no lock is registered: each lookup of `append_locks` waits (bounded) for the other
+        thread to arrive at its lookup too, each read of the table waits (bounded) for the other thread's read - on code that keeps
+        the protocol the second thread cannot arrive (it is blocked on a lock), the wait times out and nothing changes;
+    (b) an append whose write is refused because a direct update_file of the same file is in flight: the retry has to return."""
+    import time
+    import weakref
+    import pandas as pd
+    problems = []
+    # ---- (a) lost append
+    c, d = _dfcache()
+    try:
+        class Meet:
+            def __init__(self, n=2, wait=0.4):
+                self.n, self.wait, self.cv, self.count = n, wait, threading.Condition(), 0
+
+            def arrive(self):
+                with self.cv:
+                    self.count += 1
+                    self.cv.notify_all()
+                    self.cv.wait_for(lambda: self.count >= self.n, timeout=self.wait)
+        m_get, m_read = Meet(), Meet()
+
+        class Locks(weakref.WeakValueDictionary):
+            def get(self, k, default=None):
+                r = super().get(k, default)
+                m_get.arrive()
+                return r
+        c.append_locks = Locks()
+        real_get_file = c.get_file
+
+        def get_file(fn):
+            try:
+                return real_get_file(fn)
+            finally:
+                m_read.arrive()
+        c.get_file = get_file
+        real_update_file = c.update_file
+        first_done, arrivals = threading.Event(), []
+
+        def update_file(fn, contents, *a):
+            arrivals.append(1)
+            if len(arrivals) == 3:                 # (1 = the initial table) the second of the two appends: let the first one finish
+                first_done.wait(0.6)
+            try:
+                return real_update_file(fn, contents, *a)
+            finally:
+                if len(arrivals) >= 2:
+                    first_done.set()
+        c.update_file = update_file
+        base = pd.DataFrame({'v': [0, 1, 2]}, index=[0, 1, 2])
+        c.update('t', base)
+        m_get.count = m_read.count = 0
+        out = {}
+        ts = [threading.Thread(target=lambda k=k, rows=rows: out.setdefault(k, _call(c.update, 't', pd.DataFrame({'v': rows}, index=rows))))
+              for k, rows in (('A', [10, 11, 12]), ('B', [20, 21, 22]))]
+        for t in ts:
+            t.start()
+        for t in ts:
+            t.join(20)
+        if any(t.is_alive() for t in ts):
+            problems.append("two concurrent appends to one table: a call did not return")
+        else:
+            ok = [k for k in 'AB' if isinstance(out.get(k), pd.DataFrame)]
+            c.get_file = real_get_file
+            have = sorted(int(i) for i in c.get_file('t').index)
+            want = sorted([0, 1, 2] + ([10, 11, 12] if 'A' in ok else []) + ([20, 21, 22] if 'B' in ok else []))
+            if have != want:
+                problems.append(f"two appends that both start while no append lock is registered ({' and '.join(ok)} reported success): the table holds "
+                                f"rows {have}, expected {want}")
+    finally:
+        try:
+            c.executor.shutdown(wait=False)
+        except Exception:
+            pass
+        shutil.rmtree(d, ignore_errors=True)
+    # ---- (b) refused write: the retry must return
+    c, d = _dfcache()
+    try:
+        from klongpy.db.df_cache import serialize_df
+        real_exec = c.executor
+        c.executor = DeferredExecutor()
+        out = {}
+        dfC = pd.DataFrame({'v': [1]}, index=[1])
+        dfA = pd.DataFrame({'v': [2]}, index=[2])
+        tC = threading.Thread(target=lambda: out.setdefault('C', _call(c.update_file, 't', serialize_df(dfC))))
+        tC.start()
+        t0 = time.time()
+        while not c.executor.tasks and time.time() - t0 < 5:
+            time.sleep(0.001)
+        tA = threading.Thread(target=lambda: out.setdefault('A', _call(c.update, 't', dfA)), daemon=True)
+        tA.start()
+        time.sleep(0.3)                    # A: no file yet -> merge = its own rows -> update_file refused (write of C in flight), waits
+        t0 = time.time()
+        while (tA.is_alive() or tC.is_alive()) and time.time() - t0 < 6:
+            if c.executor.tasks:
+                c.executor.run_next()
+            time.sleep(0.01)
+        if tA.is_alive():
+            problems.append("update_file(t, C) in flight; update(t, A) is refused, waits for that write and retries: the retry never returns "
+                            "(it re-acquires the per-file append lock it already holds)")
+        elif isinstance(out.get('A'), BaseException):
+            problems.append(f"the retried append raised {out['A']!r}")
+        else:
+            have = sorted(int(i) for i in out['A'].index)
+            if have != [1, 2]:
+                problems.append(f"the retried append returned rows {have}, expected [1, 2]")
+        try:
+            real_exec.shutdown(wait=False)
+        except Exception:
+            pass
+    finally:
+        shutil.rmtree(d, ignore_errors=True)
+    if problems:
+        return dict(confirmed=True, detail='; '.join(problems))
+    return dict(confirmed=False, detail='both directed schedules of the append lock behave (no lost append, the retry returns)')
